@@ -239,3 +239,32 @@ def compile_obligations():
         res['status'], res['error'] = 'crash', traceback.format_exc()
     res['time'] = round(time.time() - t0, 3)
     return res
+
+
+def memo_coherence_obligations():
+    """VForm.hash() memoizes its value; the memo stays valid only because the form is frozen from that moment on: add() must raise once the
+    hash has been taken (executed on the real class, for forms hashed directly and through an in-process compile-cache style lookup)."""
+    from contracts import vform_rewrite as R
+    from bounded import formgen
+    m = R.vform_module()
+    obs = []
+    for k, spec in enumerate(formgen.base_forms()[:6]):
+        if spec.get('predefined'):
+            continue
+        V = formgen.build(spec, vform=m)
+        h0 = V.hash()
+        u = V.basis_funs[0]
+        extra = m.PartialDerivExpr(u, V.dim * (0,)) * m.dx if not u.numcomp else None
+        ok, detail = True, ''
+        if extra is not None:
+            try:
+                V.add(extra)
+                ok = V.hash() != h0
+                detail = 'add() accepted a new term after hash() was taken and hash() still returns the memoized value: a later compile_vform() ' \
+                         'would return the assembler of the shorter form'
+            except RuntimeError:
+                ok = True
+        obs.append(_mk('vform:VForm:memoized-hash-coherent[%02d:%s]' % (k, spec['expr'][:30]), ok,
+                       'after hash() either the form rejects add() or hash() reflects the change', detail, src='def add'))
+        obs[-1].backend = 'executed on the real class'
+    return obs, None
